@@ -82,6 +82,24 @@ func evalLit(info *types.Info, e ast.Expr) (interface{}, error) {
 	return nil, fmt.Errorf("non-constant expression %s", types.ExprString(e))
 }
 
+// errNotLiteral: the table exists but its initialiser is a function call — the engine evaluates
+// literals only, so the table's content cannot be decided (as opposed to a malformed literal).
+type errNotLiteral struct{ name, expr string }
+
+func (e *errNotLiteral) Error() string {
+	return e.name + " is initialised by " + e.expr + ", not by a literal"
+}
+
+// waiveIfNotLiteral: true when err says the table is built by a function; the rule is then waived
+// with that reason instead of failing.
+func (c *Ctx) waiveIfNotLiteral(rule string, err error) bool {
+	if nl, ok := err.(*errNotLiteral); ok {
+		c.L.Waive(rule, nl.Error()+"; constant-table evaluation applies to literals only")
+		return true
+	}
+	return false
+}
+
 // findTable locates `var name = <literal>` at package level.
 func findTable(pk *packages.Package, name string) (*table, error) {
 	for _, f := range pk.Syntax {
@@ -98,6 +116,11 @@ func findTable(pk *packages.Package, name string) (*table, error) {
 					}
 					if i >= len(vs.Values) {
 						return nil, fmt.Errorf("%s has no initialiser", name)
+					}
+					if _, isCall := ast.Unparen(vs.Values[i]).(*ast.CallExpr); isCall {
+						if _, isConv := pk.TypesInfo.Types[vs.Values[i].(*ast.CallExpr).Fun]; !isConv || !pk.TypesInfo.Types[vs.Values[i].(*ast.CallExpr).Fun].IsType() {
+							return nil, &errNotLiteral{name, types.ExprString(vs.Values[i])}
+						}
 					}
 					v, err := evalLit(pk.TypesInfo, vs.Values[i])
 					if err != nil {
@@ -226,6 +249,15 @@ func globalWrites(p *core.Program, g *ssa.Global) []ssa.Instruction {
 					return
 				}
 				if ia, ok := x.Addr.(*ssa.IndexAddr); ok && fl.has(ia.X) {
+					// an element store into a local array that merely *holds* rows of the table
+					// writes local memory, not the table
+					if al, isLocal := ia.X.(*ssa.Alloc); isLocal {
+						if pt, isP := al.Type().Underlying().(*types.Pointer); isP {
+							if _, isArr := pt.Elem().Underlying().(*types.Array); isArr {
+								return
+							}
+						}
+					}
 					out = append(out, in)
 				}
 			case *ssa.MapUpdate:
